@@ -495,7 +495,7 @@ def _verbatim(ck, p):
         for bi, t in g.calls():
             if norm(inst_of(t)) == "harper_ls::backend::{impl}::update_document":
                 callers.append((g, t))
-    ck.floor(rule, "callers of update_document", len(callers), 3)
+    ck.floor(rule, "callers of update_document", len(callers), 2)
     for g, t in sorted(callers, key=lambda x: x[0].name):
         ck.saw(g)
         gv = Prov(g)
